@@ -19,7 +19,7 @@ SHRINK = {"quick": False, "thorough": False}
 RULE = (
     "(runs) configuration = SMC run with generated schedule, cadence 1..5, n_final_samples, preconditioning, namespace, N, seeds x "
     "(fresh file | file already holding a larger / smaller checkpoint from an earlier run) x (explicit checkpoint_path | "
-    "auto_checkpoint context) x fault kind (likelihood | prior); the harness logs every checkpoint write of the process and reads the "
+    "auto_checkpoint context, optionally with fit() inside the same context) x fault kind (likelihood | prior); the harness logs every checkpoint write of the process and reads the "
     "HDF5 file after a fault injected at EVERY call index of the chosen kind. Oracle: in the uninterrupted run writes happen exactly "
     "at iterations {i : i mod cadence == 0} plus one forced final write; after any fault the file holds /aspire_config naming the "
     "sampler, /flow, and /checkpoint/state equal byte-for-byte (length included) to the most recent payload written, which is the "
